@@ -6,7 +6,7 @@ import hashlib, os, re, shutil, subprocess, sys, time
 from concurrent.futures import ThreadPoolExecutor
 
 VERIF = os.path.dirname(os.path.dirname(os.path.abspath(__file__)))
-BUILD = os.path.join(VERIF, "build")
+BUILD = os.environ.get("VERIF_BUILD") or os.path.join(VERIF, "build")     # scratch runs (bin/selftest.py) bring their own build directory
 GUARD = "RTOSC_VERIF"
 
 
